@@ -22,8 +22,6 @@ impl Peers {
     pub fn mark_fetching_headers_timeout(&self, index: PeerIndex) { unimplemented!() }
     #[verifier::external_body]
     pub fn mark_fetching_txs_timeout(&self, index: PeerIndex) { unimplemented!() }
-    #[verifier::external_body]
-    pub fn get_best_proved_peers(&self, best_tip: &Header) -> (r: Vec<PeerIndex>) { unimplemented!() }
     // GATE (C02): a matched block is flagged "proved" (=> its body will be accepted and indexed) only for proven headers
     #[verifier::external_body]
     pub fn mark_matched_blocks_proved(&self, matched_blocks: &mut MBGuard, block_hashes: &[Byte32])
